@@ -607,6 +607,18 @@ def _canon(c, v):
     return ("v", int(v))
 
 
+def _ro_ops(c, X):
+    """operations that are read-only by contract: serialising, copying, printing, comparing the shared object"""
+    import pickle, copy
+    return [("pickle.loads(pickle.dumps(%s))" % X, lambda o: pickle.loads(pickle.dumps(o))),
+            ("copy.copy(%s)" % X, lambda o: copy.copy(o)),
+            ("copy.deepcopy(%s)" % X, lambda o: copy.deepcopy(o)),
+            ("repr(%s) is a string" % X, lambda o: isinstance(repr(o), str) and isinstance(str(o), str)),
+            ("hash(%s)" % X, lambda o: hash(o) == hash(o)),
+            ("%s == copy of itself" % X, lambda o: o == copy.copy(o)),
+            ("%s != None" % X, lambda o: o != None)]       # noqa: E711  (the operator is the operation under test)
+
+
 def _ops(c, mode, full):
     """B's complete operations: [(name, fn(shared object))].  Order: reads of the shared point (x, y, encodings),
     a read of an unrelated point, the other operations (those that rescale the shared point in place come late in
@@ -615,7 +627,7 @@ def _ops(c, mode, full):
     ks = c.ks_full if full else c.ks
     X = {"table": "G", "scale": "Q", "jtable": "J", "ptable": "P"}[mode]
     if c.fam == "edwards":
-        ops = [(X + ".x()", lambda o: o.x()), (X + ".y()", lambda o: o.y()), ("other.y()", lambda o: c.make_other().y()),
+        ops = [(X + ".x()", lambda o: o.x()), (X + ".y()", lambda o: o.y())] + _ro_ops(c, X) + [("other.y()", lambda o: c.make_other().y()),
                (X + " == affine " + X, lambda o: o == (c.gaff if mode != "scale" else c.qaff)),
                (X + " == the other base point", lambda o: o == (c.qaff if mode != "scale" else c.gaff)),
                (X + " + P", lambda o: o + (c.make_q() if mode != "scale" else c.ref)),
@@ -632,8 +644,8 @@ def _ops(c, mode, full):
         ops += [("other.to_bytes()", lambda o: c.make_other().to_bytes()), ("other.x()", lambda o: c.make_other().x())]
         return ops
     ops = [(X + ".x()", lambda o: o.x()), (X + ".y()", lambda o: o.y()),
-           (X + ".to_bytes()", lambda o: o.to_bytes("uncompressed")), (X + ".to_bytes(compressed)", lambda o: o.to_bytes("compressed")),
-           ("other.y()", lambda o: c.make_other().y())]
+           (X + ".to_bytes()", lambda o: o.to_bytes("uncompressed")), (X + ".to_bytes(compressed)", lambda o: o.to_bytes("compressed"))]
+    ops += _ro_ops(c, X) + [("other.y()", lambda o: c.make_other().y())]
     if mode == "table":             # obj = generator whose table is being built
         for k in ks:
             ops.append(("%d*G" % k if k < 1000 else "k*G", (lambda o, k=k: o * k)))
@@ -778,11 +790,17 @@ def _peek(c, obj, loc, mode):
     return {"len": L, "ok": tab_ok, "same": loc is not None and tab is loc, "z1": z1, "co_ok": ok}
 
 
-def _codes(c, mode):
+def _codes(c, mode, region="fn"):
+    """code objects whose frames (with self = the shared object) open the region in which thread A is pre-empted:
+    "fn": the table construction / the rescaling itself;  "op": A's WHOLE operation on the shared object - the
+    multiplication that follows the construction (the loop over the table), mul_add, everything below them"""
+    if region == "op":
+        return [getattr(c.cls, n).__code__ for n in ("__mul__", "mul_add", "_maybe_precompute", "_mul_precompute", "scale", "to_affine")
+                if hasattr(c.cls, n)]
     return [c.cls.scale.__code__] if mode == "scale" else [c.cls._maybe_precompute.__code__]
 
 
-def _count_events(name, mode, opcode, deep):
+def _count_events(name, mode, opcode, deep, region="fn"):
     c = _ctx(name)
     # CPython 3.12 delivers 'opcode' events for a code object only from the second traced execution on
     # (the instrumentation is installed by the first one): repeat until the count is stable
@@ -790,7 +808,7 @@ def _count_events(name, mode, opcode, deep):
     aop = _a_op(c, mode)
     for _ in range(5):
         obj = _make(c, mode)
-        p = sched.Preempter(lambda: aop(obj), _codes(c, mode), obj, None, opcode, c.libdir if deep else None)
+        p = sched.Preempter(lambda: aop(obj), _codes(c, mode, region), obj, None, opcode, c.libdir if deep else None, watch=_codes(c, mode))
         p.run_to_stop()
         if not p.run_to_end() or p.hung:
             raise MachineryError("the sequential run of %s/%s does not terminate" % (name, mode))
@@ -807,8 +825,9 @@ def _count_events(name, mode, opcode, deep):
 END = 10 ** 8       # pre-emption point "after A's last event"
 
 
-def _gname(name, mode, opcode, deep, kind="pt"):
-    return "%s/%s/%s%s%s" % (name, mode, "opcode" if opcode else "line", "+callees" if deep else "", "" if kind == "pt" else "/" + kind)
+def _gname(name, mode, opcode, deep, kind="pt", region="fn"):
+    return "%s/%s/%s%s%s%s" % (name, mode, "opcode" if opcode else "line", "+callees" if deep else "",
+                               "/whole-op" if region == "op" else "", "" if kind == "pt" else "/" + kind)
 
 
 def _expect(c, mode, full, ops):
@@ -838,7 +857,7 @@ def _event(c, task, **kw):
     e = {"tid": task["tid"], "grp": task["grp"], "op": kind, "mode": SPEC_MODE.get(mode, mode), "idx": task["idx"], "adj": not deep, "n": c.N}
     e.update(kw)
     e.update({"_scen": mode, "_gran": "opcode" if opcode else "line", "_deep": bool(deep), "_curve": name, "_kind": kind,
-              "_g": _gname(name, mode, opcode, deep, kind)})
+              "_g": _gname(name, mode, opcode, deep, kind, task.get("region", "fn")), "_region": task.get("region", "fn")})
     return e
 
 
@@ -862,7 +881,8 @@ def _point1(task):
     short, long_ = _stalls(c, key)
     obj = _make(c, mode)
     aop = _a_op(c, mode)
-    P = sched.Preempter(lambda: aop(obj), _codes(c, mode), obj, idx, opcode, c.libdir if deep else None)
+    P = sched.Preempter(lambda: aop(obj), _codes(c, mode, task.get("region", "fn")), obj, idx, opcode, c.libdir if deep else None,
+                        watch=_codes(c, mode))
     stopped = P.run_to_stop(long_)
     blocked, who = 0, []
     # (K is the event count of a sequential run.  A run may take a few events more or less when the code keeps
@@ -1049,6 +1069,13 @@ def _lazy_part(rep, tier, wd, J):
         plan.append(("nist256p", "jtable", "pt", True, False, False, 2000))
         plan.append(("ed25519", "table", "pt", False, True, False, 1500))
         plan.append(("ed448", "scale", "pt", False, True, True, None))
+    # thread A pre-empted anywhere in its WHOLE operation (the multiplication after the construction: the loop over the table)
+    for mode in ("table", "jtable", "ptable", "scale"):
+        plan.append(("tiny", mode, "pt", False, True, True, None, "op"))
+    plan += [("nist256p", "table", "pt", False, True, False, 3000 if thorough else 100, "op"),
+             ("nist256p", "jtable", "pt", False, True, False, 3000 if thorough else 100, "op"),
+             ("ed25519", "table", "pt", False, True, False, 1500 if thorough else 60, "op")]
+    plan = [p_ if len(p_) == 8 else p_ + ("fn",) for p_ in plan]
     curves = []
     for p_ in plan:
         if p_[0] not in curves:
@@ -1056,16 +1083,18 @@ def _lazy_part(rep, tier, wd, J):
     r = rng("c20/points")
     tasks, tid, groups = [], 0, {}
     CH = 100
-    for (name, mode, kind, opcode, deep, full, sample) in plan:
-        K = _count_events(name, mode, opcode, deep)
+    for (name, mode, kind, opcode, deep, full, sample, region) in plan:
+        K = _count_events(name, mode, opcode, deep, region)
         _expect(_ctx(name), mode, full, _ops(_ctx(name), mode, full))      # sequential results: before the workers are forked
-        gname = _gname(name, mode, opcode, deep, kind)
+        gname = _gname(name, mode, opcode, deep, kind, region)
         # some points past the sequential count: a run whose path is longer (history-dependent state in a callee)
         # is then still stopped near its end, a run that is through is recorded as "A has finished"
         K2 = K + (min(128, max(16, K // 4)) if deep else 1)
         idxs = list(range(K2 + 1))
         if sample is not None and sample < K:       # the first and the last events (publication) always, the rest sampled
             head, tail = (150, 60) if kind == "pt" else (30, 12)
+            if region == "op":
+                head, tail = 80, 350            # the multiplication proper is the tail of the operation
             idxs = sorted(x for x in set(range(0, head)) | set(range(K - tail, K2 + 1)) | set(r.sample(range(K + 1), sample)) if 0 <= x <= K2)
         if kind == "pt":
             idxs.append(END)                        # ... and one run in which A is certainly through
@@ -1074,7 +1103,7 @@ def _lazy_part(rep, tier, wd, J):
             ch = j // CH
             tid += 1
             t = {"name": name, "mode": mode, "kind": kind, "opcode": opcode, "deep": deep, "full": full, "idx": idx,
-                 "grp": "%s/%d" % (gname, ch), "tid": tid, "K": K, "g": gname}
+                 "grp": "%s/%d" % (gname, ch), "tid": tid, "K": K, "g": gname, "region": region}
             tasks.append(t)
             if j % CH == 0 and j > 0:       # chunk boundary: the event is also the last one of the previous chunk
                 tid += 1
